@@ -122,7 +122,7 @@ def gen_case(seed, n):
             q["target"], q["odd"] = "/Squid-Internal-Mgr/" + act, "prefix-case"
         else:
             q["target"], q["odd"] = PFX + "menu/../" + act, "dotdot"
-        q["pwkind"] = r.choice(["none", "none", "right", "right", "right", "right", "right", "other", "mutated", "empty", "nocolon", "scheme-case", "literal-disable", "literal-none", "garbled"])
+        q["pwkind"] = r.choice(["none", "none", "right", "right", "right", "right", "right", "other", "mutated", "mutated", "prefix", "prefix", "empty", "nocolon", "scheme-case", "literal-disable", "literal-none", "garbled"])
         q["mut"] = r.randrange(4)
         q["method"] = r.choice(["GET", "GET", "GET", "POST", "HEAD"]) if r.random() < 0.2 else "GET"
         reqs.append(q)
@@ -199,6 +199,9 @@ def auth_header(c, q):
         return "Basic " + b64("mgr:" + [p for p in PASSWORDS if p != right][q["mut"] % 2])
     if k == "mutated":
         return "Basic " + b64("mgr:" + [right + "x", right[:-1], right.swapcase(), " " + right][q["mut"]])
+    if k == "prefix":
+        # proper, non-empty prefixes of the right password (first character, half, all but one) and extensions of it
+        return "Basic " + b64("mgr:" + [right[:1], right[:max(1, len(right) // 2)], right[:-1], right + right][q["mut"]])
     if k == "empty":
         return "Basic " + b64("mgr:")
     if k == "nocolon":
